@@ -11,6 +11,8 @@ import json, os, time
 import vlib
 
 PROP = "C11"
+# bound the heap of every TLC this check starts (several run side by side; the machine is shared)
+os.environ.setdefault("JAVA_TOOL_OPTIONS", "-Xmx3g")
 DEV_SEEDS = [  # (deviation, cfg it is checked with, invariant that must fail)
     ("group_end_inclusive", "Routing.exh2.quick.cfg", "UniqueCoveringShard"),
     ("stale_group_cache", "Routing.exh2.quick.cfg", "UniqueCoveringShard"),
@@ -37,7 +39,7 @@ def gen_behaviours(tier, seed):
     exh2 = "Routing.exh2.quick.cfg" if quick else "Routing.exh2.thorough.cfg"
     exh3 = "Routing.exh3.quick.cfg" if quick else "Routing.exh3.thorough.cfg"
     bfs = "Routing.bfs.export.quick.cfg" if quick else "Routing.bfs.export.cfg"
-    nsim_procs, nsim, simdepth = (1, 60, 41) if quick else (10, 250, 41)
+    nsim_procs, nsim, simdepth = (1, 60, 41) if quick else (8, 250, 41)
     stats, behaviours = {}, []
 
     def sim(j):
@@ -45,11 +47,12 @@ def gen_behaviours(tier, seed):
                             seed=seed * 1000 + j, timeout=2400)
 
     with cf.ThreadPoolExecutor(16) as ex:
-        # the exports and the small exhaustive run share the machine; the large exhaustive run follows
+        # the exports and the small exhaustive run share the machine; in the thorough tier the large
+        # exhaustive run follows them (memory: TLC keeps its state queue under /dev/shm)
         f_exh2 = ex.submit(vlib.run_tlc, "RoutingMC", exh2, 4, None, None, None, 1500)
         f_bfs = ex.submit(vlib.run_tlc, "RoutingMC", bfs, 6, None, None, None, 1500)
         f_sims = [ex.submit(sim, j) for j in range(nsim_procs)]
-        f_exh3 = ex.submit(vlib.run_tlc, "RoutingMC", exh3, 10 if quick else 16, None, None, None, 2700)
+        f_exh3 = ex.submit(vlib.run_tlc, "RoutingMC", exh3, 10, None, None, None, 2700) if quick else None
         r = f_exh2.result()
         vlib.tlc_must_pass(r, exh2)
         stats["exh_depth2"] = _stats(r, exh2)
@@ -64,7 +67,7 @@ def gen_behaviours(tier, seed):
             behaviours += r["traces"]
             ntr += len(r["traces"])
         stats["sim"] = {"processes": nsim_procs, "num": nsim, "traces": ntr}
-        r = f_exh3.result()
+        r = f_exh3.result() if quick else vlib.run_tlc("RoutingMC", exh3, 16, None, None, None, 2700)
         vlib.tlc_must_pass(r, exh3)
         stats["exh_depth3"] = _stats(r, exh3)
     return behaviours, stats
